@@ -44,7 +44,8 @@ def lin():
         st.builds(lambda k_, s, c: ["add", ["mul", k_, s], c], k, sym(), smallnum()),
         st.builds(lambda s: ["add", s, ["mul", IU, s]], sym()),
         st.builds(lambda a, b: ["add", a, ["mul", IU, b]], sym(), sym()),
-        st.builds(lambda s, c: ["add", s, c], sym(), st.sampled_from([PI, E_, ["neg", PI]])))
+        st.builds(lambda s, c: ["add", s, c], sym(), st.sampled_from([PI, E_, ["neg", PI]])),
+        st.builds(lambda s, c: ["add", s, c], sym(), st.sampled_from([IU, ["complex", I_(2), I_(-1)], ["complex", I_(-1), q(1, 2)]])))
 
 
 INNER_EXP = [2, 2, 3, 3, 4, -1, -2, -3, 5, 6]
@@ -155,6 +156,33 @@ def m_refine_pow_abs(case, v):
     got = v.detail.get("result")
     for b, k, n in _nested_pows(d, []):
         if _is_number(k) and _is_number(n) and not (k[0] == "Integer" and int(k[1]) % 2 == 0) and _contains(got, ["Abs", b]):
+            return True
+    return False
+
+
+def _complex_const_add(d):
+    return d[0] == "Add" and d[1][0] in ("Complex", "ComplexDouble")
+
+
+def m_refine_positive_complex_constant(case, v):
+    """KF-C35-02 (root cause KF-C34-01): refine trusts is_positive(x + I) = true: sign(x + I) -> 1, abs(x + I) -> x + I,
+    max / min drop or keep the wrong arguments, log((x + I)**y) -> y*log(x + I)"""
+    dt = v.detail or {}
+    d = dt.get("dump")
+    if not d or not dt.get("with_asm"):
+        return False
+
+    def walk(n):
+        if isinstance(n, list) and n:
+            if isinstance(n[0], str):
+                yield n
+            for x in (n[1:] if isinstance(n[0], str) else n):
+                if isinstance(x, list):
+                    yield from walk(x)
+    for n in walk(d):
+        if n[0] in ("Abs", "Sign", "Max", "Min") and any(isinstance(c, list) and c and _complex_const_add(c) for c in n[1:]):
+            return True
+        if n[0] == "Log" and n[1][0] == "Pow" and _complex_const_add(n[1][1]):
             return True
     return False
 
@@ -321,7 +349,7 @@ class C35(ValueCheck):
         return ok, (repr(vg) if kg == "q" else mpmath_str(vg))
 
 
-C35.matchers = {"refine_pow_abs": m_refine_pow_abs}
+C35.matchers = {"refine_pow_abs": m_refine_pow_abs, "refine_positive_complex_constant": m_refine_positive_complex_constant}
 
 if __name__ == "__main__":
     sys.exit(engine.main(C35))
